@@ -10,7 +10,10 @@ try:
     common.ensure_worker("chk")
     common.ensure_worker("rel")
     common.ensure_penne_bin()
-    print("setup: workers and penne binary built")
+    from pv import c15_sanitizers
+    c15_sanitizers.build_miri()
+    c15_sanitizers.build_asan()
+    print("setup: workers, penne binary, Miri and ASan harness built")
 except common.HarnessError as e:
     print("setup failed:", e)
     sys.exit(2)
